@@ -12,7 +12,8 @@ built, and the most used concrete instructions.
 
 Ghost events (the frame): 'validate-pre' / 'validate-post' (a validator is asked: C03_validation.ValidatorI),
 'exe-main' / 'exe-assert' (main step of a MainStepExecutor, as non-assertion / as assertion), 'embryo-main' (main of an instruction embryo), 'part-check'
-(an assertion part is checked), 'get-arg' (argument of an assertion part is computed).
+(an assertion part is checked), 'get-arg' (argument of an assertion part is computed), 'model-get' / 'matcher-apply'
+(instruction of a matcher: the model is fetched / the matcher applied).
 See notes/C03.md and notes/C18.md, section "Extension I7"."""
 from pyvc.api import (Module, Interface, Method, Iface, Inst, Int, Bool, Str, Opt, OneOf, Const, Union, ListOf,
                       FixedList, Any_, EnumOf, Custom, Dependent)
@@ -48,7 +49,7 @@ outcome_event = c01.outcome_event
 
 # every ghost event that stands for "something of the instruction is run"
 VALIDATION_EVENTS = ('validate-pre', 'validate-post')
-MAIN_EVENTS = ('exe-main', 'exe-assert', 'embryo-main', 'part-check', 'get-arg')
+MAIN_EVENTS = ('exe-main', 'exe-assert', 'embryo-main', 'part-check', 'get-arg', 'model-get', 'matcher-apply')
 STEP_EVENTS = VALIDATION_EVENTS + MAIN_EVENTS
 
 
@@ -514,3 +515,161 @@ M.contract(P_AP + ':SequenceOfCooperativeAssertionParts.__init__',
                                     lambda j: self.validator.validators[j] is assertion_parts[j].validator),
                'runs nothing': lambda trace: trace == [],
            }, raises_only=())
+
+
+# ====================================================================================== 1d: the instruction of a matcher
+# assert_/utils/instruction_of_matcher.Instruction (`exists`, `dir-contents`, ... are made of it): validated iff
+# BOTH the model getter and the matcher are.
+from exactly_lib.impls.instructions.assert_.utils import instruction_of_matcher as iom
+from exactly_lib.type_val_deps.dep_variants.ddv import ddv_validators
+
+P_IOM = 'exactly_lib.impls.instructions.assert_.utils.instruction_of_matcher'
+P_DV = c03.P_DV
+
+# the conjunction of exactly two validators (what `all_of([a, b])` gives; C03_validation proves the conjunction of
+# any number with a ghost monitor; here call sites see the body)
+PAIR = Inst(ddv_validators.AndValidator, validators=FixedList(Iface(ValidatorI), Iface(ValidatorI)))
+
+
+def _pair_steps(self, step, arg, trace):
+    first = ('validate-' + step, self.validators[0], (arg,))
+    o = [e for e in trace if e[0] in ('validate-%s:returned' % step, 'validate-%s:raised' % step)][0]
+    if o[0].endswith(':raised') or o[2] is not None:
+        return [first]
+    return [first, ('validate-' + step, self.validators[1], (arg,))]
+
+
+for _method, _step, _arg in (('validate_pre_sds_if_applicable', 'pre', 'hds'),
+                             ('validate_post_sds_if_applicable', 'post', 'tcds')):
+    M.contract('%s:AndValidator.%s' % (P_DV, _method), params={'self': PAIR, _arg: Any_},
+               ghosts=dict(step=Const(_step)), returns=Opt(Any_), inline=True,
+               ensures={
+                   'two components: the first, then -- iff it has nothing to say -- the second; that part only':
+                       (lambda self, hds, step, trace: steps(trace) == _pair_steps(self, step, hds, trace))
+                       if _arg == 'hds' else
+                       (lambda self, tcds, step, trace: steps(trace) == _pair_steps(self, step, tcds, trace)),
+                   'two components: the first error is the result': lambda result, step, trace:
+                   result is [e for e in trace if e[0] == 'validate-%s:returned' % step][-1][2],
+               },
+               raises={ArbitraryException: {}}, raises_only=())
+
+
+class MatchingResultI(Interface):
+    attrs = {'value': Bool, 'trace': Any_}
+
+
+class GetterPrimitiveI(Interface):
+    methods = {'get': Method(returns=Any_, may_raise=c01.RAISES, event='model-get'),
+               'description': Method(returns=Any_)}
+
+
+class MatcherPrimitiveI(Interface):
+    methods = {'matches_w_trace': Method(returns=Iface(MatchingResultI), may_raise=c01.RAISES, event='matcher-apply')}
+
+
+class GetterAdvI(Interface):
+    methods = {'primitive': Method(returns=Iface(GetterPrimitiveI), may_raise=c01.RAISES, event='to-primitive')}
+
+
+class MatcherAdvI(Interface):
+    methods = {'primitive': Method(returns=Iface(MatcherPrimitiveI), may_raise=c01.RAISES, event='to-primitive')}
+
+
+class GetterDdvI(Interface):
+    attrs = {'validator': Iface(ValidatorI)}
+    methods = {'value_of_any_dependency': Method(returns=Iface(GetterAdvI), may_raise=c01.RAISES, event='to-adv')}
+
+
+class MatcherDdvI(Interface):
+    attrs = {'validator': Iface(ValidatorI)}
+    methods = {'value_of_any_dependency': Method(returns=Iface(MatcherAdvI), may_raise=c01.RAISES, event='to-adv')}
+
+
+class GetterSdvI(Interface):
+    attrs = {'references': FixedList(Any_)}
+    methods = {'resolve': Method(returns=Iface(GetterDdvI), may_raise=(_mk_arbitrary,), event='resolve-getter')}
+
+
+class MatcherSdvI(Interface):
+    attrs = {'references': FixedList(Any_, Any_)}
+    methods = {'resolve': Method(returns=Iface(MatcherDdvI), may_raise=(_mk_arbitrary,), event='resolve-matcher')}
+
+
+class FailureMessageConfigI(Interface):
+    methods = {'head': Method(returns=Any_), 'tail': Method(returns=Any_)}
+
+
+INSTRUCTION_OF_MATCHER = Inst(iom.Instruction, _matcher=Iface(MatcherSdvI), _model_getter=Iface(GetterSdvI),
+                              _failure_message_config=Iface(FailureMessageConfigI))
+
+
+class PreSdsEnvOfMatcherI(Interface):
+    attrs = {'symbols': Any_, 'hds': Any_}
+
+
+def _resolved(trace, what):
+    return [e[2] for e in trace if e[0] == 'resolve-%s:returned' % what][0]
+
+
+def _resolves_both(self, environment, trace):
+    return [e for e in trace if e[0] in ('resolve-getter', 'resolve-matcher')] \
+        == [('resolve-getter', self._model_getter, (environment.symbols,)),
+            ('resolve-matcher', self._matcher, (environment.symbols,))]
+
+
+def _validations_of_both(trace, step, arg):
+    """the validator of the model getter, then -- iff it has nothing to say -- that of the matcher"""
+    first = ('validate-' + step, _resolved(trace, 'getter').validator, (arg,))
+    o = [e for e in trace if e[0] in ('validate-%s:returned' % step, 'validate-%s:raised' % step)][0]
+    if o[0].endswith(':raised') or o[2] is not None:
+        return [first]
+    return [first, ('validate-' + step, _resolved(trace, 'matcher').validator, (arg,))]
+
+
+def _verdict(trace, step):
+    return [e for e in trace if e[0] == 'validate-%s:returned' % step][-1][2]
+
+
+M.contract(P_IOM + ':Instruction.symbol_usages', params=dict(self=INSTRUCTION_OF_MATCHER),
+           ensures={'the references of the model getter and of the matcher -- all of them; runs nothing':
+                    lambda self, result, trace:
+                    result == tuple(self._model_getter.references) + tuple(self._matcher.references) and trace == []},
+           raises_only=())
+
+M.contract(P_IOM + ':Instruction.validate_pre_sds',
+           params=dict(self=INSTRUCTION_OF_MATCHER, environment=Iface(PreSdsEnvOfMatcherI)), returns=SVH,
+           ensures={
+               'the pre-sds parts of the validators of BOTH the model getter and the matcher, as resolved with the '
+               'symbols of the environment, on its home directories; nothing else': lambda self, environment, trace:
+               _resolves_both(self, environment, trace)
+               and steps(trace) == _validations_of_both(trace, 'pre', environment.hds),
+               'VALIDATION_ERROR iff one of them reports an error, with its message': lambda result, trace:
+               svh_kind(result) == (None if _verdict(trace, 'pre') is None else 'VALIDATION_ERROR')
+               and result.failure_message is _verdict(trace, 'pre'),
+           },
+           raises={ArbitraryException: {}}, raises_only=())
+
+M.contract(P_IOM + ':Instruction.main',
+           params=dict(self=INSTRUCTION_OF_MATCHER, environment=Iface(PostSdsInstructionEnvI), settings=Any_,
+                       os_services=Any_), returns=PFH,
+           ensures={
+               'post-sds validation of both first; the model is fetched and the matcher applied to it iff they have '
+               'nothing to say': lambda self, environment, trace:
+               _resolves_both(self, environment, trace)
+               and [s for s in steps(trace) if s[0] in VALIDATION_EVENTS]
+               == _validations_of_both(trace, 'post', environment.tcds)
+               and [s[0] for s in steps(trace) if s[0] in MAIN_EVENTS]
+               == ([] if _verdict(trace, 'post') is not None else
+                   [] if [e for e in trace if e[0] in ('to-adv:raised', 'to-primitive:raised')] else
+                   ['model-get'] + (['matcher-apply'] if outcome_event(trace, 'model-get')[0] == 'returned' else []))
+               and all(e[2] == (outcome_event(trace, 'model-get')[1],) for e in trace if e[0] == 'matcher-apply'),
+               'validation error or HardErrorException: HARD_ERROR with its message; else PASS iff the matcher matches, '
+               'FAIL otherwise': lambda result, trace:
+               (result.status is PFH_ENUM.HARD_ERROR and result.failure_message is _verdict(trace, 'post'))
+               if _verdict(trace, 'post') is not None else
+               (result.status is PFH_ENUM.HARD_ERROR
+                and result.failure_message is [e[2] for e in trace if e[0].endswith(':raised')][0].error)
+               if [e for e in trace if e[0].endswith(':raised')] else
+               (result.status is (PFH_ENUM.PASS if outcome_event(trace, 'matcher-apply')[1].value else PFH_ENUM.FAIL)),
+           },
+           raises={ArbitraryException: {}}, raises_only=())
